@@ -23,6 +23,31 @@ ALL = ["C01", "C02", "C03", "C05", "C06", "C07", "C08", "C10", "C11", "C12",
        "C13", "C14", "C15", "C16", "C17", "C18", "C19", "C20"]
 
 
+def _generic_rules(rep):
+    """rules that hold for every function a driver looked at (the functions named in the evidence), whatever the property"""
+    from .rules.argorder import swapped_positional
+    from .core import alpha
+    n = int(rep.prop[1:])
+    fis = []
+    for key in sorted(rep.functions):
+        rel, qual = key.split(":", 1)
+        fi = rep.repo.maybe_func(rel, qual)
+        if fi is not None:
+            fis.append(fi)
+    bad = []
+    for fi in fis:
+        for c, why in swapped_positional(fi):
+            # one-letter end-point names (u, v / a, b / i, j) are swapped on purpose when an arc is read in the other direction
+            pair = why.split("(`", 1)[1].split("`)", 1)[0].split("`, `") if "(`" in why else ["", ""]
+            if any(len(x.split(".")[-1].lstrip("_")) > 1 for x in pair):
+                bad.append((fi, c, why))
+    if bad:
+        for fi, c, why in bad:
+            rep.ob(f"O{n}.0", "ARG", fi, False, alpha(c, fi.node)[:90], "like-named values are passed to the like-named parameters: " + why, node=c)
+    else:
+        rep.ob(f"O{n}.0", "ARG", f"{rep.prop}:<analysed functions>", True, f"{len(fis)} functions", "no call inside the analysed functions passes two like-named values to each other's parameters (mutual swap)")
+
+
 def analyse(prop: str, root: str, tier: str, quiet: bool = False, overlay=None):
     """Run one property's driver on one tree; returns (code, report)."""
     mod = importlib.import_module(f"sa.props.{prop}")
@@ -30,6 +55,7 @@ def analyse(prop: str, root: str, tier: str, quiet: bool = False, overlay=None):
     rep = Report(prop, tier, repo, quiet=quiet, write_replay=overlay is None)
     try:
         mod.run(rep)
+        rep.run(_generic_rules)
         code = rep.finish()
     except AnalysisError as exc:
         code = rep.finish()
